@@ -71,6 +71,7 @@ class Sorts:
         ElemList.declare('ECons', ('head', Elem), ('tail', ElemList))
         self.Elem, self.ElemList = z3.CreateDatatypes(Elem, ElemList)
         self._seq_cache = {}
+        self._stack_sorts = {}
 
     def ref(self, cls):
         if cls not in self.ref_sorts:
@@ -82,8 +83,21 @@ class Sorts:
         self.ref(cls)
         return self.nulls[cls]
 
+    def stack_sort(self, elem_kind):
+        """a list used with append / pop() only: cons list of its elements (top of the stack = head)"""
+        key = str(elem_kind)
+        if key not in self._stack_sorts:
+            es = self.sort_of(elem_kind)
+            dt = z3.Datatype(f'Stack_{es}')
+            dt.declare('SNil')
+            dt.declare('SCons', ('top', es), ('below', dt))
+            self._stack_sorts[key] = dt.create()
+        return self._stack_sorts[key]
+
     def sort_of(self, kind):
         k = kind[0]
+        if k == 'stack':
+            return self.stack_sort(kind[1])
         if k == 'int':
             return z3.IntSort()
         if k == 'bool':
@@ -221,6 +235,15 @@ class VRange(Val):
     def __init__(self, n):
         self.n = n
         self.kind = ('range',)
+
+
+class VStack(Val):
+    """a list used as a stack (append / pop() / emptiness test only)"""
+
+    def __init__(self, t, elem_kind):
+        self.t = t
+        self.elem_kind = elem_kind
+        self.kind = ('stack', elem_kind)
 
 
 class VNode(Val):
